@@ -206,5 +206,31 @@ func VerifC20Cycle() {
 			zz.Assert(bytes.Equal(after[i].K, before[i].K) && bytes.Equal(after[i].V, before[i].V), "C20/cycle/pairs-unchanged")
 		}
 	}
+	// a fresh instance (no DBI "d" yet) merges the uploaded snapshot: the DBI is created from the
+	// snapshot as a duplicate-keys DBI and holds exactly the original pairs
+	msg2, derr2 := snapshot.LoadData(blob)
+	if derr2 != nil {
+		return
+	}
+	envB := zz.NewEnv()
+	sB := vFullSyncer(envB, &vStore{}, "fresh", false, func(c *config.Config, lc *config.LMDB, opt *Options) { lc.DupSortHack = true })
+	updB := snapshot.Update{Snapshot: msg2, NameInfo: snapshot.NameInfo{Kind: snapshot.KindSnapshot, InstanceID: "inst"}}
+	_, _, err = sB.LoadOnce(ctx, envB, "inst", updB, 0)
+	zz.Assert(err == nil, "C20/fresh/load-no-error")
+	if err != nil {
+		return
+	}
+	for _, d := range vDumpAll(envB) {
+		if d.name == "d" {
+			zz.Assert(d.flags&lmdb.DupSort != 0, "C20/fresh/created-as-duplicate-keys-dbi")
+		}
+	}
+	gotB, _ := zz.Dump(envB, "d")
+	zz.Assert(len(gotB) == len(before), "C20/fresh/pair-count")
+	if len(gotB) == len(before) {
+		for i := range gotB {
+			zz.Assert(bytes.Equal(gotB[i].K, before[i].K) && bytes.Equal(gotB[i].V, before[i].V), "C20/fresh/pairs-as-on-the-origin")
+		}
+	}
 	zz.Reach("C20/cycle/done")
 }
